@@ -1301,7 +1301,9 @@ class Signature:
             )
             if tv_map is None:
                 had_error = True
-            if param_used_any:
+            # An empty *args or **kwargs pack (position DEFAULT) was not provided
+            # by the caller, so it cannot make this a match "due to Any".
+            if param_used_any and position is not DEFAULT:
                 used_any = True
             if remaining_value is not None:
                 if isinstance(position, int):
